@@ -369,6 +369,9 @@ func runUfs(c *Case, res *result) (err error) {
 		}
 		var w *os.File
 		waitFor(hangT, func() bool {
+			if k.count(f.who, "respond.posted") > 0 {
+				return true // already released (a writer of an earlier case of this FIFO)
+			}
 			var e error
 			w, e = os.OpenFile(f.fifo, os.O_WRONLY|syscall.O_NONBLOCK, 0)
 			return e == nil
@@ -576,7 +579,16 @@ func genUfsCase(t *rapid.T, maxObj int, enum bool) *Case {
 			c.Ops = append(c.Ops, UOp{Kind: "walk", Fid: 0, Newfid: fid, Names: []string{d}},
 				UOp{Kind: "create", Fid: fid, Name: fmt.Sprintf("new%d", j), Perm: perm, Mode: mode})
 		case "fifo":
-			p := uFifos[len(flights)%len(uFifos)]
+			nf := 0
+			for _, f := range flights {
+				if f.Kind == "fifo" {
+					nf++
+				}
+			}
+			if nf >= len(uFifos) {
+				break // one blocked open per FIFO
+			}
+			p := uFifos[nf]
 			c.Ops = append(c.Ops, UOp{Kind: "walk", Fid: 0, Newfid: fid, Names: []string{p}})
 			flights = append(flights, UOp{Kind: "fifo", Fid: fid, Mode: 0})
 		case "late":
